@@ -243,6 +243,9 @@ func copyDir(src, dst string) {
 type c09Params struct {
 	// QuickBound, if > 0, lowers the preemption bound of this scenario in the quick tier
 	QuickBound int       `json:"quick_bound,omitempty"`
+	// NoModel: the reference model does not implement the commands of this scenario
+	// (array paths of JSET / JDEL); only "restart on the shrunk log = what the server served" is decided
+	NoModel bool `json:"no_model,omitempty"`
 	Name    string       `json:"name"`
 	Pre     [][]string   `json:"pre"`
 	Writers [][][]string `json:"writers"`
@@ -314,7 +317,7 @@ func c09Run(job *Job, p c09Params, prefix []int) (out schedOut) {
 				r, _ := clis[i].ReadReply()
 				exp := mApply(model, cmd)
 				replies = append(replies, r.String())
-				if !mMatch(exp, r) {
+				if !mMatch(exp, r) && !p.NoModel {
 					out.VSig = "C09/reply:" + p.Name
 					out.VDetail = fmt.Sprintf("%v replied %s, model %s", cmd, r, exp)
 				}
@@ -351,7 +354,7 @@ func c09Run(job *Job, p c09Params, prefix []int) (out schedOut) {
 		if out.VSig != "" {
 			return
 		}
-		if live != want {
+		if live != want && !p.NoModel {
 			out.VSig = "C09/live-state:" + p.Name
 			out.VDetail = fmt.Sprintf("after shrink + writers the server serves %s, acknowledged writes give %s", vclip(live, 500), vclip(want, 500))
 			return
@@ -433,6 +436,9 @@ func c09SchedScenarios(tier string) []c09Params {
 		S("renamenx", one("RENAMENX kb k0")),
 		S("jset-expire", append(one("EXPIRE kb a 100"), []string{"JSET", "kb", "j", "x", "1"})),
 		S("flushdb", one("FLUSHDB", "SET kb z POINT 1 1")),
+		// commands whose effect depends on the document they meet (array element removal / append)
+		{Name: "jdel-array-element-ahead-of-cursor", Pre: append(append([][]string{}, pre...), []string{"SET", "kc", "j", "STRING", `{"list":["a","b","c"]}`}), Writers: [][][]string{one("JDEL kc j list.0")}, NoModel: true},
+		{Name: "jset-array-append-ahead-of-cursor", Pre: append(append([][]string{}, pre...), []string{"SET", "kc", "j", "STRING", `{"list":["a","b","c"]}`}), Writers: [][][]string{one("JSET kc j list.-1 d")}, NoModel: true},
 		S("sethook-delhook", [][]string{append(w("SETCHAN ch1"), w("NEARBY k9 FENCE POINT 50 50 100")...), w("DELCHAN ch1"), append(w("SETCHAN ch2"), w("NEARBY k9 FENCE POINT 50 50 100")...)}),
 	}
 	if tier == "thorough" {
